@@ -90,7 +90,46 @@ def st_case(draw, threaded=None):
     d["fuzzy_type"] = draw(st.sampled_from(types))
     fk = draw(st.sampled_from(["none", "none", "star", "types"]))
     d["forbid"] = [] if fk == "none" else (["*"] if fk == "star" else [t for t in types if draw(st.integers(0, 2)) == 0])
+    if draw(st.integers(0, 3)) == 0:
+        _force_sibling_join(draw, d)
     return d
+
+
+def _force_sibling_join(draw, d):
+    """Both outputs of one multi-output plugin needed by one consumer, the first-visited one missing and the
+    second one stored / forbidden / (both missing): the planner must treat the two outputs separately."""
+    spec = d["spec"]
+    src = [n for n in spec["nodes"] if n["op"] == "source" and not n.get("overlapping")]
+    if not src:
+        return
+    s = src[0]["name"]
+    names = {o for n in spec["nodes"] for o in graphs.outputs_of(n)} | {n["name"] for n in spec["nodes"]}
+    if "jm" in names or "jj" in names:
+        return
+    variant = draw(st.sampled_from(["second_stored", "second_forbidden", "first_stored", "none_stored"]))
+    sw = {"jmx": draw(st.integers(0, 3)), "jmy": draw(st.integers(1, 3))}
+    if variant == "first_stored":
+        sw["jmx"] = draw(st.integers(1, 3))
+    spec["nodes"].append(dict(name="jm", op="multi", deps=[s], outs=["jmx", "jmy"], save_when=sw,
+                              rechunk_on_save=False, target_rows=None))
+    spec["nodes"].append(dict(name="jj", op="loop", deps=["jmx", "jmy"], save_when=draw(st.integers(0, 3)),
+                              rechunk_on_save=False, target_rows=None))
+    d["target"] = "jj"
+    d["targets"] = ["jj"]
+    d["modifier"] = draw(st.sampled_from(["none", "none", "selection", "allow_incomplete"]))
+    d["save"] = [t for t in d["save"] if t != d.get("target")]
+    for fe in d["frontends"]:
+        fe["present"] = [t for t in fe["present"] if t not in ("jmx", "jmy", "jj")]
+        fe["take_only"], fe["exclude"] = [], []
+    d["forbid"] = []
+    if variant == "second_stored":
+        d["frontends"][0]["present"].append("jmy")
+    elif variant == "first_stored":
+        d["frontends"][0]["present"].append("jmx")
+    elif variant == "second_forbidden":
+        d["forbid"] = ["jmy"]
+    d["cfg"]["max_messages"] = sum(len(c) + 1 for c in d["cutsA"].values()) + \
+        sum(len(c) + 1 for c in d["cutsB"].values()) + 3
 
 
 def takes(fe, t):
@@ -376,6 +415,6 @@ def run_case(d):
 
 
 SUBCHECKS = [
-    SubCheck("single", run_case, strategy=lambda: st_case(threaded=False), quick=900, thorough=30000),
-    SubCheck("threaded", run_case, strategy=lambda: st_case(threaded=True), quick=500, thorough=15000),
+    SubCheck("single", run_case, strategy=lambda: st_case(threaded=False), quick=3000, thorough=100000),
+    SubCheck("threaded", run_case, strategy=lambda: st_case(threaded=True), quick=1600, thorough=60000),
 ]
